@@ -19,6 +19,7 @@ def check(model, R, tier):
     R.rule('C07.PROP', 'over every valuation of the operands\' requires_grad flags (and presence of optional operands): result.requires_grad = OR of the children\'s flags, and every flagged operand is a child (partial evaluation)', floor=48)
     R.rule('C07.ATTACH', 'over every valuation: grad_fn (a BackwardFunction around a closure of the wrapper) is stored on the result iff the result requires grad (partial evaluation)', floor=48)
     check_ctor(model, R)
+    check_flag_writers(model, R)
     check_guards(model, R)
     check_ctx(model, R, 'no_grad', 'gradient__', False)
     check_ctx(model, R, 'retain_grads', 'retain_grads__', True)
@@ -37,6 +38,26 @@ def check(model, R, tier):
 
 
 # ------------------------------------------------------------------------------------------------ constructor flag
+def check_flag_writers(model, R):
+    """who may write Tensor._requires_grad: the constructor (after the floating-point check, AND-ed with the global mode) and the validating property setter"""
+    R.rule('C07.FLAG-WRITERS', 'the stored flag _requires_grad is written only by Tensor.__init__ and by the requires_grad setter (both validate: floating point, leaf, global mode); '
+                               'every other place sets the flag through the property', floor=2)
+    allowed = {TENSOR + '.__init__', TENSOR + '.requires_grad.setter'}
+    n = 0
+    for fn in model.live_funcs():
+        for st in body_walk(fn.node):
+            tg = st.targets if isinstance(st, ast.Assign) else ([st.target] if isinstance(st, (ast.AugAssign, ast.AnnAssign)) else [])
+            hit = [t for t in tg for x in ([t] if not isinstance(t, (ast.Tuple, ast.List)) else t.elts) if isinstance(x, ast.Attribute) and x.attr == '_requires_grad']
+            call = isinstance(st, ast.Expr) and isinstance(st.value, ast.Call) and norm(st.value.func) in ('setattr', 'object.__setattr__') \
+                and any(isinstance(a, ast.Constant) and a.value == '_requires_grad' for a in st.value.args)
+            if hit or call:
+                n += 1
+                R.ob('C07.FLAG-WRITERS', fn.qualname, norm(st)[:80], fn.qualname in allowed,
+                     'writing _requires_grad directly bypasses the checks of the setter / constructor (an integer tensor, or a tensor created under no_grad, could be made to require grad)',
+                     '%s:%d' % (fn.mod.relpath, st.lineno))
+    R.analysed['requires_grad_flag_writers'] = n
+
+
 def check_ctor(model, R):
     R.rule('C07.CTOR', 'Tensor.__init__ stores requires_grad AND the global gradient mode, after rejecting non floating-point tensors', floor=2)
     f = model.func(TENSOR + '.__init__')
